@@ -162,7 +162,18 @@ func checkGTIDCase(c *GTIDCase) error {
 			if err != nil {
 				return fmt.Errorf("PreviousGTIDs() failed on %q: %v", m.text(), err)
 			}
-			return checkSetAgainst(set, m, "previous-GTIDs event")
+			if err := checkSetAgainst(set, m, "previous-GTIDs event"); err != nil {
+				return err
+			}
+			// the decoded set must stay what the master wrote when GTIDs are added to it afterwards
+			for i, sid := range m.sids() {
+				g := replication.Mysql56GTID{Server: replication.SID(sid), Sequence: int64(c.Seq%1000) + int64(i) + 1}
+				set.AddGTID(g)
+				if len(m[sid]) > 0 && m[sid][len(m[sid])-1][1] < 1<<62 {
+					set.AddGTID(replication.Mysql56GTID{Server: replication.SID(sid), Sequence: m[sid][len(m[sid])-1][1] + 5})
+				}
+			}
+			return checkSetAgainst(set, m, "previous-GTIDs event after AddGTID calls on the decoded set")
 		})
 	case "mariaevent":
 		return guard(func() error {
